@@ -226,6 +226,7 @@ theorem isValid_some_unknown {c : Ctx} {n : String} {S : List String}
     rw [this]
     simp only [hc]
   · rw [if_neg (by rw [hc]; exact Bool.false_ne_true), memoize_unknown h]
+  · rw [if_neg (by rw [hc]; exact Bool.false_ne_true), memoize_unknown h]
 
 theorem isValid_some_self {c : Ctx} {n : String} {S : List String}
     (h : n ∉ knownNames c) (hS : n ∈ S) : isValid c n (.some S) = .ok true := by
@@ -245,6 +246,7 @@ theorem isValid_some_self {c : Ctx} {n : String} {S : List String}
       exact ⟨g, hg, List.mem_append_left _ (by simpa using hcon)⟩
     rw [this]
     simp only [hc]
+  · rw [if_pos hc]
   · rw [if_pos hc]
 
 /-! ## table facts — decided by the kernel over the generated tables -/
@@ -273,7 +275,9 @@ def pairwiseDistinctCells (c : Ctx) : List String → Bool
 
 /-! ## validity through aliases -/
 
-/-- the names whose presence in the validity set makes `n` valid, read off `register_is_valid` -/
+/-- the names whose presence in the validity set makes `n` valid, read off `register_is_valid`
+    (for the list-shaped rules; the `sparcCanon` rule compares canonical names instead and is
+    handled by `isValid_sparcCanon`) -/
 def validNames (c : Ctx) (n : String) : List String :=
   match validRule c with
   | .default => [n]
@@ -285,19 +289,15 @@ def validNames (c : Ctx) (n : String) : List String :=
     (match memoName c n with
      | some r => [n, r]
      | none => [n])
+  | .sparcCanon => [n]
 
-/-- The part of the alias universe for which validity is symmetric in the CURRENT code.  For the
-    ARM-style rule (`"r11" | "fp" => which.contains("r11") || which.contains("fp")`) and for
-    contexts without aliases this is every name.  The SPARC rule
-    `which.contains(reg) || memoize_register(reg).is_some_and(|c| which.contains(c))` only looks
-    for `reg` itself and its canonical name in the set: an ALIAS in the set (`o6`) does not make
-    the canonical name (`g_r14`) or a sibling valid — see `sparc_alias_validity_one_way` in C18. -/
-def aliasScope (c : Ctx) (s : String) : Bool :=
+def isCanonRule (c : Ctx) : Bool :=
   match validRule c with
-  | .sparcMemo => (registers c).contains s
-  | _ => true
+  | .sparcCanon => true
+  | _ => false
 
-theorem isValid_some_eq {c : Ctx} {n : String} (S : List String) (hm : memoTotal c n = true) :
+theorem isValid_some_eq {c : Ctx} {n : String} (S : List String) (hm : memoTotal c n = true)
+    (hr : isCanonRule c = false) :
     isValid c n (.some S) = .ok ((validNames c n).any fun a => S.contains a) := by
   simp only [isValid, validNames]
   cases hv : validRule c with
@@ -318,5 +318,54 @@ theorem isValid_some_eq {c : Ctx} {n : String} (S : List String) (hm : memoTotal
       | none => by_cases hc : n ∈ S <;> simp [hc]
       | some r => by_cases hc : n ∈ S <;> simp [hc]
     · cases hm
+  | sparcCanon => simp [isCanonRule, hv] at hr
+
+theorem anyMemoIs_eq {c : Ctx} {r : String} {S : List String} (h : ∀ o ∈ S, memoTotal c o = true) :
+    anyMemoIs c r S = .ok (S.any fun o => memoName c o == some r) := by
+  induction S with
+  | nil => rfl
+  | cons o t ih =>
+    have ho := h o List.mem_cons_self
+    have iht := ih (fun x hx => h x (List.mem_cons_of_mem _ hx))
+    unfold memoTotal at ho
+    simp only [anyMemoIs, List.any_cons]
+    unfold memoName
+    split at ho
+    · rename_i m hm
+      rw [hm]
+      by_cases e : m = some r
+      · simp [e]
+      · simp only [e, if_false, iht]
+        have : (m == some r) = false := by simpa using e
+        simp [this, memoName]
+    · cases ho
+
+/-- the `sparcCanon` rule in closed form -/
+theorem isValid_sparcCanon {c : Ctx} {n : String} (S : List String) (hv : isCanonRule c = true)
+    (hn : memoTotal c n = true) (hS : ∀ o ∈ S, memoTotal c o = true) :
+    isValid c n (.some S) = .ok (S.contains n ||
+      (match memoName c n with
+       | some r => S.any fun o => memoName c o == some r
+       | none => false)) := by
+  simp only [isValid]
+  cases hr : validRule c with
+  | default => simp [isCanonRule, hr] at hv
+  | groups gs => simp [isCanonRule, hr] at hv
+  | sparcMemo => simp [isCanonRule, hr] at hv
+  | sparcCanon =>
+    simp only []
+    by_cases hc : S.contains n = true
+    · rw [if_pos hc, hc]; rfl
+    · have hc' : S.contains n = false := by simpa using hc
+      rw [if_neg hc, hc']
+      unfold memoTotal at hn
+      unfold memoName
+      split at hn
+      · rename_i m hm
+        rw [hm]
+        cases m with
+        | none => simp
+        | some r => simp only [Bool.false_or]; exact anyMemoIs_eq hS
+      · cases hn
 
 end MdModel.Regs
